@@ -71,7 +71,6 @@ def body(E, op, n, m, num_pts, npt_so_far, with_h):
         M.add_new_sample(k, r)
         mean = [(c * ghost[k]['mean'][j] + r[j]) / (c + 1) for j in range(m)]
         ghost[k] = {'x': ghost[k]['x'], 'mean': mean, 'cnt': c + 1, 'ev': ghost[k]['ev']}
-        M.factorisation_current = False   # (resampling does not move points; not part of the contract)
         check_slots(E, M, ghost, op)
     elif op == 'add_new_point':
         E.assume(npt_so_far == num_pts)
